@@ -15,6 +15,9 @@ package redblacktree
 //@ ghost field Node.b int
 //@ -- colour layer (C07): black height of the subtree rooted at the node, the node itself included (nil counts 0)
 //@ ghost field Node.bh int local
+//@ -- the node being unlinked by Remove: exempt from the colour layer while the deletion fix-up runs; its bh is already that
+//@ -- of the subtree that will replace it
+//@ ghost field Node.dead bool local
 
 //@ -- strict weak order on the three-way comparator c
 //@ pred SWO(c, w) := (forall x like w, y like w :: (c(x, y) < 0 <==> c(y, x) > 0))
@@ -44,7 +47,7 @@ package redblacktree
 //@ pred Blk(y) := y == nil || y.color
 //@ pred HB(y) := ite(y == nil, 0, y.bh)
 //@ pred Col(x) := ite(x.color, 1, 0)
-//@ pred BHok(x) := x.bh == Col(x) + HB(x.Left) && x.bh == Col(x) + HB(x.Right)
+//@ pred BHok(x) := x.bh >= 0 && x.bh == Col(x) + HB(x.Left) && x.bh == Col(x) + HB(x.Right)
 //@ pred RBok(x) := x.color || (Blk(x.Left) && Blk(x.Right))
 //@ -- ... except that the red node v may hang under a red parent
 //@ pred RBex(x, v) := x.color || ((x.Left == v || Blk(x.Left)) && (x.Right == v || Blk(x.Right)))
@@ -290,6 +293,7 @@ package redblacktree
 //@   ensures old(node.Right).Left == node && node.Parent == old(node.Right) && old(node.Right).Parent == old(node.Parent) && node.Right == old(node.Right.Left)
 //@     && node.Left == old(node.Left) && old(node.Right).Right == old(node.Right.Right)
 //@   ensures (old(node.Parent) == nil ==> tree.Root == old(node.Right)) && (old(node.Parent) != nil ==> tree.Root == old(tree.Root))
+//@   ensures intervals: forall x like tree.Root :: x != node && x != old(node.Right) ==> x.a == old(x.a) && x.b == old(x.b)
 //@   ensures others: forall x like tree.Root :: x != node && x != old(node.Right) ==> (x != old(node.Parent) ==> x.Left == old(x.Left) && x.Right == old(x.Right)) && (x != old(node.Right.Left) ==> x.Parent == old(x.Parent))
 //@   ensures parent: old(node.Parent) != nil ==> (old(node.Parent.Left) == node ==> old(node.Parent).Left == old(node.Right) && old(node.Parent).Right == old(node.Parent.Right))
 //@     && (old(node.Parent.Left) != node ==> old(node.Parent).Right == old(node.Right) && old(node.Parent).Left == old(node.Parent.Left))
@@ -306,6 +310,7 @@ package redblacktree
 //@   ensures old(node.Left).Right == node && node.Parent == old(node.Left) && old(node.Left).Parent == old(node.Parent) && node.Left == old(node.Left.Right)
 //@     && node.Right == old(node.Right) && old(node.Left).Left == old(node.Left.Left)
 //@   ensures (old(node.Parent) == nil ==> tree.Root == old(node.Left)) && (old(node.Parent) != nil ==> tree.Root == old(tree.Root))
+//@   ensures intervals: forall x like tree.Root :: x != node && x != old(node.Left) ==> x.a == old(x.a) && x.b == old(x.b)
 //@   ensures others: forall x like tree.Root :: x != node && x != old(node.Left) ==> (x != old(node.Parent) ==> x.Left == old(x.Left) && x.Right == old(x.Right)) && (x != old(node.Left.Right) ==> x.Parent == old(x.Parent))
 //@   ensures parent: old(node.Parent) != nil ==> (old(node.Parent.Left) == node ==> old(node.Parent).Left == old(node.Left) && old(node.Parent).Right == old(node.Parent.Right))
 //@     && (old(node.Parent.Left) != node ==> old(node.Parent).Right == old(node.Left) && old(node.Parent).Left == old(node.Parent.Left))
@@ -506,3 +511,107 @@ package redblacktree
 //@   requires node != nil
 //@   modifies nothing
 //@   ensures [C17 C18] true
+
+// ---- deletion fix-up (colour layer, C07; nil-safety of the sibling accesses, C17) ----
+
+//@ pred Sib(v) := ite(v == v.Parent.Left, v.Parent.Right, v.Parent.Left)
+//@ -- before: the subtree of v is one black short as seen from v's parent (and v may be red under a red parent)
+//@ pred DPre(t, v) := v != nil && v.tr == t && (forall x like t.Root :: x.tr == t ==> x.bh >= 0)
+//@     && (forall x like t.Root :: x.tr == t && !x.dead ==> (x != v.Parent ==> BHok(x) && RBok(x))
+//@         && (x == v.Parent ==> x.bh == Col(x) + HB(v) + 1 && x.bh == Col(x) + HB(Sib(v)) && RBex(x, v)))
+//@     && (t.Root.color || t.Root == v) && (v.Parent != nil ==> !v.Parent.dead)
+//@     && (forall x like t.Root :: x.tr == t && x.dead ==> v.a <= x.pos && x.pos <= v.b)
+//@ -- after: every live node satisfies the colour layer again
+//@ pred DPost(t, v) := (forall x like t.Root :: x.tr == t ==> x.bh >= 0)
+//@     && (forall x like t.Root :: x.tr == t && !x.dead ==> BHok(x)) && (forall x like t.Root :: x.tr == t && !x.dead ==> RBok(x)) && (t.Root.color || t.Root == v)
+//@ -- the fix-up never touches the node it is called for
+//@ pred Untouched(t, v) := forall x like t.Root :: x.tr == t && old(v.a) <= x.pos && x.pos <= old(v.b) ==> x.color == old(x.color) && x.Left == old(x.Left) && x.Right == old(x.Right) && x.bh == old(x.bh) && x.a == old(x.a) && x.b == old(x.b)
+
+//@ func Tree.deleteCase1
+//@   requires Shape(tree) && DPre(tree, node)
+//@   modifies tree.Root
+//@   modifies each x like tree.Root where x.tr == tree : x.Left, x.Right, x.Parent, x.a, x.b, x.color, x.bh
+//@   ensures Shape(tree)
+//@   ensures same: Same(tree)
+//@   ensures [C07] internal done: DPost(tree, node)
+//@   ensures untouched: Untouched(tree, node)
+
+//@ func Tree.deleteCase2
+//@   requires Shape(tree) && DPre(tree, node) && node.Parent != nil
+//@   modifies tree.Root
+//@   modifies each x like tree.Root where x.tr == tree : x.Left, x.Right, x.Parent, x.a, x.b, x.color, x.bh
+//@   at before rotateLeft#1: node.Parent.bh := node.Parent.bh - 1
+//@   at before rotateLeft#1: sibling.bh := sibling.bh + 1
+//@   at before rotateRight#1: node.Parent.bh := node.Parent.bh - 1
+//@   at before rotateRight#1: sibling.bh := sibling.bh + 1
+//@   assert entry: Sib(node) != nil && Sib(node).tr == tree && !Sib(node).dead && node.Parent.tr == tree
+//@   focus post:untouched* : pre:*, lemma:*, Tree.rotate*#*:intervals, Tree.rotate*#*:others, Tree.rotate*#*:same, Tree.rotate*#*:samecol, Tree.rotate*#*:4, Tree.deleteCase*#*:untouched, Tree.deleteCase*#*:same
+//@   focus post:done* : pre:*, lemma:*, Tree.rotate*#*:others, Tree.rotate*#*:parent, Tree.rotate*#*:same, Tree.rotate*#*:samecol, Tree.rotate*#*:4, Tree.rotate*#*:5, Tree.deleteCase*#*:done, Tree.deleteCase*#*:same, Tree.deleteCase*#*:untouched
+//@   ensures Shape(tree)
+//@   ensures same: Same(tree)
+//@   ensures [C07] internal done: DPost(tree, node)
+//@   ensures untouched: Untouched(tree, node)
+
+//@ func Tree.deleteCase3
+//@   requires Shape(tree) && DPre(tree, node) && node.Parent != nil && Blk(Sib(node))
+//@   modifies tree.Root
+//@   modifies each x like tree.Root where x.tr == tree : x.Left, x.Right, x.Parent, x.a, x.b, x.color, x.bh
+//@   at before deleteCase1#1: sibling.bh := sibling.bh - 1
+//@   at before deleteCase1#1: node.Parent.bh := node.Parent.bh - 1
+//@   assert entry: Sib(node) != nil && Sib(node).tr == tree && !Sib(node).dead && node.Parent.tr == tree
+//@   focus post:untouched* : pre:*, lemma:*, Tree.rotate*#*:intervals, Tree.rotate*#*:others, Tree.rotate*#*:same, Tree.rotate*#*:samecol, Tree.rotate*#*:4, Tree.deleteCase*#*:untouched, Tree.deleteCase*#*:same
+//@   focus post:done* : pre:*, lemma:*, Tree.rotate*#*:others, Tree.rotate*#*:parent, Tree.rotate*#*:same, Tree.rotate*#*:samecol, Tree.rotate*#*:4, Tree.rotate*#*:5, Tree.deleteCase*#*:done, Tree.deleteCase*#*:same, Tree.deleteCase*#*:untouched
+//@   ensures Shape(tree)
+//@   ensures same: Same(tree)
+//@   ensures [C07] internal done: DPost(tree, node)
+//@   ensures untouched: Untouched(tree, node)
+
+//@ func Tree.deleteCase4
+//@   requires Shape(tree) && DPre(tree, node) && node.Parent != nil && Blk(Sib(node))
+//@   requires !(node.Parent.color && Blk(Sib(node).Left) && Blk(Sib(node).Right))
+//@   modifies tree.Root
+//@   modifies each x like tree.Root where x.tr == tree : x.Left, x.Right, x.Parent, x.a, x.b, x.color, x.bh
+//@   at exit: if old(!node.Parent.color && Blk(Sib(node).Left) && Blk(Sib(node).Right)) then sibling.bh := sibling.bh - 1
+//@   assert entry: Sib(node) != nil && Sib(node).tr == tree && !Sib(node).dead && node.Parent.tr == tree
+//@   focus post:untouched* : pre:*, lemma:*, Tree.rotate*#*:intervals, Tree.rotate*#*:others, Tree.rotate*#*:same, Tree.rotate*#*:samecol, Tree.rotate*#*:4, Tree.deleteCase*#*:untouched, Tree.deleteCase*#*:same
+//@   focus post:done* : pre:*, lemma:*, Tree.rotate*#*:others, Tree.rotate*#*:parent, Tree.rotate*#*:same, Tree.rotate*#*:samecol, Tree.rotate*#*:4, Tree.rotate*#*:5, Tree.deleteCase*#*:done, Tree.deleteCase*#*:same, Tree.deleteCase*#*:untouched
+//@   ensures Shape(tree)
+//@   ensures same: Same(tree)
+//@   ensures [C07] internal done: DPost(tree, node)
+//@   ensures untouched: Untouched(tree, node)
+
+//@ func Tree.deleteCase5
+//@   requires Shape(tree) && DPre(tree, node) && node.Parent != nil && Blk(Sib(node))
+//@   requires !Blk(Sib(node).Left) || !Blk(Sib(node).Right)
+//@   modifies tree.Root
+//@   modifies each x like tree.Root where x.tr == tree : x.Left, x.Right, x.Parent, x.a, x.b, x.color, x.bh
+//@   at before rotateRight#1: sibling.bh := sibling.bh - 1
+//@   at before rotateRight#1: sibling.Left.bh := sibling.Left.bh + 1
+//@   at before rotateLeft#1: sibling.bh := sibling.bh - 1
+//@   at before rotateLeft#1: sibling.Right.bh := sibling.Right.bh + 1
+//@   assert entry: Sib(node) != nil && Sib(node).tr == tree && !Sib(node).dead && node.Parent.tr == tree
+//@   focus post:untouched* : pre:*, lemma:*, Tree.rotate*#*:intervals, Tree.rotate*#*:others, Tree.rotate*#*:same, Tree.rotate*#*:samecol, Tree.rotate*#*:4, Tree.deleteCase*#*:untouched, Tree.deleteCase*#*:same
+//@   focus post:done* : pre:*, lemma:*, Tree.rotate*#*:others, Tree.rotate*#*:parent, Tree.rotate*#*:same, Tree.rotate*#*:samecol, Tree.rotate*#*:4, Tree.rotate*#*:5, Tree.deleteCase*#*:done, Tree.deleteCase*#*:same, Tree.deleteCase*#*:untouched
+//@   ensures Shape(tree)
+//@   ensures same: Same(tree)
+//@   ensures [C07] internal done: DPost(tree, node)
+//@   ensures untouched: Untouched(tree, node)
+
+//@ func Tree.deleteCase6
+//@   requires Shape(tree) && DPre(tree, node) && node.Parent != nil && Blk(Sib(node))
+//@   requires (node == node.Parent.Left ==> !Blk(Sib(node).Right)) && (node != node.Parent.Left ==> !Blk(Sib(node).Left))
+//@   modifies tree.Root
+//@   modifies each x like tree.Root where x.tr == tree : x.Left, x.Right, x.Parent, x.a, x.b, x.color, x.bh
+//@   at before rotateLeft#1: node.Parent.bh := node.Parent.bh - Col(sibling)
+//@   at before rotateLeft#1: sibling.bh := sibling.bh + Col(sibling)
+//@   at before rotateLeft#1: sibling.Right.bh := sibling.Right.bh + 1
+//@   at before rotateRight#1: node.Parent.bh := node.Parent.bh - Col(sibling)
+//@   at before rotateRight#1: sibling.bh := sibling.bh + Col(sibling)
+//@   at before rotateRight#1: sibling.Left.bh := sibling.Left.bh + 1
+//@   assert entry: Sib(node) != nil && Sib(node).tr == tree && !Sib(node).dead && node.Parent.tr == tree
+//@   focus post:untouched* : pre:*, lemma:*, Tree.rotate*#*:intervals, Tree.rotate*#*:others, Tree.rotate*#*:same, Tree.rotate*#*:samecol, Tree.rotate*#*:4, Tree.deleteCase*#*:untouched, Tree.deleteCase*#*:same
+//@   focus post:done* : pre:*, lemma:*, Tree.rotate*#*:others, Tree.rotate*#*:parent, Tree.rotate*#*:same, Tree.rotate*#*:samecol, Tree.rotate*#*:4, Tree.rotate*#*:5, Tree.deleteCase*#*:done, Tree.deleteCase*#*:same, Tree.deleteCase*#*:untouched
+//@   ensures Shape(tree)
+//@   ensures same: Same(tree)
+//@   ensures [C07] internal done: DPost(tree, node)
+//@   ensures untouched: Untouched(tree, node)
